@@ -83,6 +83,11 @@ def instantiate(v, choices, picks, g, ctx=None, types=None):
         if v.ty == 'Statement':
             if ctx == 'simple':
                 return b.expr_stmt(b.var('o_' + v.name))
+            if getattr(g, 'rich', False):
+                # a child with many kinds of nodes below it, so that a child the walker skips shows for most target sets
+                return b.block([b.var_stmt(b.ty('Uint', 256), 'o_' + v.name, b.bin('Add', b.var('p_' + v.name), b.num(1))),
+                                b.expr_stmt(b.bin('Assign', b.var('o_' + v.name), b.call(b.var('q_' + v.name), [b.var('o_' + v.name)]))),
+                                b.ret(b.var('o_' + v.name))])
             return b.block([b.expr_stmt(b.var('o_' + v.name))])
         if v.ty == 'ContractPart':
             return b.cpart(b.state_var(b.ty('Uint', 256), 'o_' + v.name))
@@ -157,6 +162,36 @@ def native_walk_compare(chk, su, all_kinds):
     return ('same', text) if got == want else ('diff', text, want, got)
 
 
+def install_symbolic_set(e, tvars):
+    """the requested kinds are one Boolean per Target kind; whatever the walker asks of the set as a whole (iteration with all / any,
+    size, emptiness) is answered by the corresponding formula over those Booleans"""
+    from ..lib import call_closure
+
+    def as_bool(x):
+        if isinstance(x, bool):
+            return z3.BoolVal(x)
+        if isinstance(x, Int):
+            return z3.BoolVal(bool(x.v)) if x.concrete else (x.v != 0 if not z3.is_bool(x.v) else x.v)
+        return x
+
+    def it(en, args, fr, m):
+        return Opaque('hash_set::Iter<Target>', 'T')
+
+    def all_any(en, args, fr, m):
+        parts = []
+        for k, tv in tvars.items():
+            r = as_bool(call_closure(en, fr, args[1], [ValRef(Adt('Target', k, ()))]))
+            parts.append(z3.Implies(tv, r) if m.group(1) == 'all' else z3.And(tv, r))
+        return z3.simplify(z3.And(*parts) if m.group(1) == 'all' else z3.Or(*parts))
+
+    def size(en, args, fr, m):
+        n = z3.Sum(*[z3.If(tv, z3.BitVecVal(1, 64), z3.BitVecVal(0, 64)) for tv in tvars.values()])
+        return z3.simplify(n == 0) if m.group(1) == 'is_empty' else Int(z3.simplify(n), 'usize')
+    e.stub_patterns += [(re.compile(r'^HashSet::<Target>::iter$'), it),
+                        (re.compile(r"^<Iter<'_, Target> as Iterator>::(all|any)::<.*>$"), all_any),
+                        (re.compile(r'^HashSet::<Target>::(len|is_empty)$'), size)]
+
+
 def body(chk):
     L = 2 if chk.quick else 4
     types = chk.world.types
@@ -206,6 +241,7 @@ def variant_job(chk, job, ctx):
 
     e.stubs['HashSet::<Target>::contains::<Target>'] = stub_contains
     e.stubs['walk_node_for_targets'] = stub_walk
+    install_symbolic_set(e, tvars)
     g = ptgen.Gen(types, L=L, tag='w')
     g.Lnested = 1
     if ty == 'SourceUnit':
@@ -231,11 +267,11 @@ def variant_job(chk, job, ctx):
         if r.outcome == 'unsupported':
             chk.undecide('%s: %s' % (label, r.value)); continue
         if r.outcome == 'panic':
-            report(chk, g, ty, label, inner, r, {}, 'panics (%s)' % r.value.msg, all_kinds); continue
+            report(chk, g, ty, label, inner, r, {}, 'panics (%s)' % r.value.msg, all_kinds, tvars); continue
         asked = r.extra.get('asked', [])
         want_kind = kind if kind in target_names else 'None'
         if asked != [want_kind]:
-            report(chk, g, ty, label, inner, r, {}, 'is classified as Target %r, its kind is %s' % (asked, want_kind), all_kinds)
+            report(chk, g, ty, label, inner, r, {}, 'is classified as Target %r, its kind is %s' % (asked, want_kind), all_kinds, tvars)
             continue
         # is the node's own kind requested on this path? (Z3: pc implies T_kind / pc implies not T_kind)
         s = z3.Solver(); s.add(*r.pc)
@@ -258,7 +294,7 @@ def variant_job(chk, job, ctx):
             bad = [p for p in poss if p[0] != got_seq][0]
             witness = bad[1]
             why = 'children visited %r, children present (declaration order) %r' % (list(got_seq), list(bad[0]))
-        report(chk, g, ty, label, inner, r, witness, why, all_kinds)
+        report(chk, g, ty, label, inner, r, witness, why, all_kinds, tvars)
     # translator validation: one concrete instance per variant through the real parser + real walker
     if ty != 'SourceUnit' and res and res[0].outcome == 'return':
         r = res[(chk.seed + len(label)) % len(res)]
@@ -277,15 +313,51 @@ def variant_job(chk, job, ctx):
     chk.sample({'variant': label, 'paths': len(res), 'children': [list(p[0]) for p in possible(inner, res[0].choices)][:1] if res else None})
 
 
-def report(chk, g, ty, label, inner, r, witness, why, all_kinds):
+def target_sets(r, tvars, all_kinds):
+    """target sets on which the path `r` is taken: all kinds if the path allows it, else a largest set (greedy) and the
+    set of a plain model"""
+    s = z3.Solver(); s.add(*r.pc)
+    if s.check() != z3.sat:
+        return [all_kinds]
+    out = []
+    plain = [k for k in all_kinds if z3.is_true(s.model().eval(tvars[k], model_completion=True))]
+    s.push()
+    kept = []
+    for k in all_kinds:
+        s.push(); s.add(tvars[k])
+        if s.check() == z3.sat:
+            kept.append(k)
+        else:
+            s.pop(); s.add(z3.Not(tvars[k]))
+    out.append(kept)
+    if plain != kept and plain:
+        out.append(plain)
+    return out
+
+
+def report(chk, g, ty, label, inner, r, witness, why, all_kinds, tvars=None):
     """confirm on the real code (printed instance -> real parser -> real walker vs reference traversal)"""
     key = 'walker:' + label
-    try:
-        conc = instantiate(inner, r.choices, witness, g, None, chk.world.types)
-        su = wrap_in_file(g, ty if ty != 'SourceUnit' else 'SourceUnitPart', conc) if ty != 'SourceUnit' else conc
-        out = native_walk_compare(chk, su, all_kinds)
-    except Unsupported as u:
-        out = ('unprintable', str(u))
+    out = ('unprintable', 'no instance')
+    kinds = all_kinds
+    for kinds in (target_sets(r, tvars, all_kinds) if tvars else [all_kinds]):
+        for rich in (False, True):
+            g.rich = rich
+            try:
+                conc = instantiate(inner, r.choices, witness, g, None, chk.world.types)
+                su = wrap_in_file(g, ty if ty != 'SourceUnit' else 'SourceUnitPart', conc) if ty != 'SourceUnit' else conc
+                o = native_walk_compare(chk, su, kinds)
+            except Unsupported as u:
+                o = ('unprintable', str(u))
+            finally:
+                g.rich = False
+            if o[0] == 'diff' or out[0] == 'unprintable':
+                out = o
+            if out[0] == 'diff':
+                break
+        if out[0] == 'diff':
+            break
+    all_kinds = kinds
     if out[0] == 'unprintable':
         # try the other list lengths / alternatives? keep it simple: an instance that cannot be printed is undecided
         chk.undecide('%s: %s — symbolic counterexample could not be replayed (%s)' % (label, why, out[1]))
